@@ -15,17 +15,18 @@ What the programs contain that the other C10 streams never generate
   falsy statements     empty `{ }`, `< >`, `loop k { }`, `subcircuit { }`, `subcircuit k { }` at top level, in sequential
                        blocks, in loops, in macro bodies; macros with an empty body, called in every position
   names                substrings / prefixes of one another across roles (`q q0 qq`, `a ab abc`, `n n0 nn`, `m mm m0`,
-                       `x x0 xx`), declared in ascending, DESCENDING or shuffled order
+                       `x x0 xx`, and across roles: parameter `xq` / `rx` vs register `q` / `r`, let `nq` vs `n` and `q`), declared in ascending, DESCENDING or shuffled order
   cooperating macros   a macro without any alias in its body that calls (in a loop, a parallel block, a subcircuit with
                        a count) a macro that does use an alias / a let index; macros calling macros defined before them;
                        lets as qubit indices inside macro bodies and as macro arguments; zero-valued lets as index / count
   the same statement   written several times (the builder memoizes gate statements: the same object ends up in several scopes)
   entry                the text through parse_jaqal_string, or the S-expression through circuitbuilder.build with the SAME
                        Python list / tuple object at every position where the subtree is equal, identifiers created at
-                       run time ("".join: never interned), integral floats / numpy floats for sizes, indices and counts
+                       run time ("".join: never interned), integral floats / numpy floats for sizes, indices and slice bounds
   gate table           harness.gates.GATES, or the `native_gates` of the RESULT of a pass on another circuit (re-use)
   override values      every let overridden as int / integral float / np.int64 / np.int32 / np.float64 / bool (0, 1) /
-                       Constant / negative zero
+                       negative zero (a Constant OBJECT as an override value is left out: fill_in_let writes the object in,
+                       and the generated text then names a let that is not declared — not a number, not quantified over)
 
 oracle
   meaning_after_history    after EVERY prefix of a history (two orders of one multiset of passes, one history with
@@ -56,10 +57,10 @@ DEFAULT_DRIVER = "/verif/lean/.lake/build/bin/jaqal-model"
 MENU = [("X", "q"), ("Y", "q"), ("SX", "q"), ("CX", "qq"), ("CZ", "qq"), ("P", "qi"), ("PF", "fq"), ("CCX", "qqq")]
 POOLS = {
     "reg": ["q", "q0", "qq", "r", "r1", "rq", "qr"],
-    "alias": ["a", "ab", "abc", "b", "ba", "a0", "q1", "qa", "aq", "bb"],
-    "let": ["n", "n0", "nn", "k", "kn", "k2", "f", "fn", "z", "nk", "zz", "f0"],
-    "macro": ["m", "mm", "m0", "ma", "am", "g", "gg", "mg", "m1", "gm"],
-    "param": ["x", "x0", "xx", "y", "xy", "i", "ii", "j", "yx", "ij"],
+    "alias": ["a", "ab", "abc", "b", "ba", "a0", "q1", "qa", "aq", "bb", "an", "ar"],
+    "let": ["n", "n0", "nn", "k", "kn", "k2", "f", "fn", "z", "nk", "zz", "f0", "nq", "kr"],
+    "macro": ["m", "mm", "m0", "ma", "am", "g", "gg", "mg", "m1", "gm", "mx", "mq"],
+    "param": ["x", "x0", "xx", "y", "xy", "i", "ii", "j", "yx", "ij", "xq", "rx", "xn", "ax"],
 }
 FLOATS = [0.5, -0.0, 2.0, 0.25, -1.5, 0.0, 1e-3, 3.0]
 ORACLES = ("meaning_after_history", "idempotent", "legal_after_pass", "flags_equal_passes", "input_not_modified",
@@ -147,14 +148,14 @@ class Gen:
             self.lets[l[1]] = l[2]
         self.header += lets
         regs = []
-        for k in range(rng.choice([1, 1, 2])):
+        for k in range(1):        # (a circuit has ONE fundamental register)
             n = self.name("reg")
             if k == 0 and size_let is not None:
                 regs.append(["reg", n, size_let])
                 self.arrays[n] = self.lets[size_let]
                 self.used_idx.add(size_let)
             else:
-                s = rng.choice([3, 3, 4, 5])
+                s = rng.choice([3, 4, 5, 6])
                 regs.append(["reg", n, s])
                 self.arrays[n] = s
         self.header += regs
@@ -163,6 +164,8 @@ class Gen:
             src = rng.choice(sorted(self.arrays))
             ln = self.arrays[src]
             c = rng.random()
+            if ln < 3 and 0.4 <= c < 0.8:
+                c = 0.9
             if c < 0.4:
                 self.header.append(["map", n, src, ["i", self.index(src)]])
                 self.singles.append(n)
@@ -247,10 +250,9 @@ class Gen:
         for p, t in m[1]:
             if t == "q":
                 # the argument of a call is never indexed by a parameter (kept out of the regparam class)
-                a = self.qarg(dict(ctx, regparam_ok=False))
-                if ctx.get("uses_alias_track") is not None and a[0] == "n" and a[1] in self.singles:
-                    ctx["uses_alias"] = True
-                args.append(a)
+                sub = dict(ctx, regparam_ok=False)
+                args.append(self.qarg(sub))
+                self.merge(ctx, sub)
             elif t == "i" and self.rng.random() < 0.5:
                 # an index parameter gets an index that is valid for every array: 0, or a let whose value is 0 … 2
                 small = [l for l in self.idx_lets if self.lets[l] < min(self.arrays.values())]
@@ -386,9 +388,13 @@ def prune(items):
         if x[0] == "g":
             out.append(x)
         elif x[0] == "loop":
-            b = prune(x[2][1]) if x[2][0] in ("seq", "par") else prune([x[2]])
-            if b:
-                out.append(["loop", x[1], [x[2][0] if x[2][0] in ("seq", "par") else "seq", b]])
+            body = x[2]
+            if body[0] == "sub":
+                out.append(["loop", x[1], ["sub", body[1], prune(body[2])]])
+            else:
+                b = prune(body[1])
+                if b:
+                    out.append(["loop", x[1], [body[0], b]])
         elif x[0] == "sub":
             out.append(["sub", x[1], prune(x[2])])
         else:
@@ -421,7 +427,7 @@ def dec_value(kind, v):
     if kind == "bool":
         return bool(v)
     if kind == "const":
-        return Constant("w", int(v) if float(v) == int(v) and not isinstance(v, float) else v)
+        return Constant("w", v)
     if kind == "negzero":
         return -0.0
     raise KeyError(kind)
@@ -446,7 +452,7 @@ def ov_plain(ov):
 
 
 def int_kind(rng, v):
-    kinds = ["int", "int", "float", "np.int64", "np.int32", "np.float64", "const"]
+    kinds = ["int", "int", "float", "np.int64", "np.int32", "np.float64"]
     if v in (0, 1):
         kinds += ["bool", "bool"]
     if v == 0:
@@ -472,7 +478,7 @@ def gen_ov(rng, info, spec):
                 free.append([n, int_kind(rng, nv), nv])
         elif rng.random() < 0.6:
             nv = rng.choice([v * 2, v + 0.5, 0.25, -v, 0.0, -0.0, 7.0])
-            free.append([n, rng.choice(["float", "np.float64", "const"]), nv])
+            free.append([n, rng.choice(["float", "float", "np.float64"]), nv])
 
     def valid(cand):
         try:
@@ -505,7 +511,7 @@ def hist_label(h):
 
 def spec_sexpr(spec, rng):
     """the S-expression of the program with traps: equal subtrees are ONE Python object, identifiers are made at run time,
-    sizes / indices / counts are sometimes integral floats"""
+    sizes / indices / bounds are sometimes integral floats"""
     memo = {}
 
     def ident(s):
@@ -517,6 +523,10 @@ def spec_sexpr(spec, rng):
         if isinstance(v, int) and not isinstance(v, bool) and rng.random() < 0.3:
             return rng.choice([float(v), np.float64(v)])
         return v
+
+    def cnt(v):
+        # (the builder refuses an integral float as a literal loop / subcircuit count: counts stay ints)
+        return ident(v) if isinstance(v, str) else v
 
     def shared(node, make):
         key = json.dumps(node)
@@ -535,9 +545,9 @@ def spec_sexpr(spec, rng):
         if s[0] == "g":
             return shared(s, lambda: (list if rng.random() < 0.5 else tuple)(["gate", ident(s[1])] + [arg(a) for a in s[2]]))
         if s[0] == "loop":
-            return shared(s, lambda: ["loop", num(s[1]), stmt(s[2])])
+            return shared(s, lambda: ["loop", cnt(s[1]), stmt(s[2])])
         if s[0] == "sub":
-            return shared(s, lambda: ["subcircuit_block", "" if s[1] is None else num(s[1])] + [stmt(x) for x in s[2]])
+            return shared(s, lambda: ["subcircuit_block", "" if s[1] is None else cnt(s[1])] + [stmt(x) for x in s[2]])
         return shared(s, lambda: ["sequential_block" if s[0] == "seq" else "parallel_block"] + [stmt(x) for x in s[1]])
 
     out = ["circuit"]
@@ -567,6 +577,8 @@ def gate_table(gp):
     """the gate set of a case: the injected one, or the native_gates of a pass RESULT on another circuit"""
     if gp["gates"] == "injected":
         return GATES
+    if gp["gates"] == "none":
+        return None
     c = parse(HELPER, GATES)
     r = {"reused:macros": expand_macros, "reused:subs": expand_subcircuits, "reused:let": fill_in_let,
          "reused:map": fill_in_map}[gp["gates"]](c)
@@ -898,7 +910,7 @@ def gen_params(seed, n, thorough):
     for i in range(n):
         out.append({"gseed": rng.randrange(1 << 40),
                     "entry": "sexpr" if i % 4 == 3 else "text",
-                    "gates": rng.choice(["injected", "injected", "injected", "reused:macros", "reused:subs", "reused:let", "reused:map"])})
+                    "gates": rng.choice(["injected", "injected", "none", "none", "reused:macros", "reused:subs", "reused:let", "reused:map"])})
     return out
 
 
